@@ -150,7 +150,7 @@ def gen_structured(rng):
         k = rng.below(10)
         if k < 6:
             tok = rng.choice(TOKENS)
-            if prev_tok is not None and prev_tok[-1].lower() == tok[0].lower():
+            if prev_tok is not None and prev_tok[-1].lower() == tok[0].lower() and not rng.chance(35):
                 pieces.append(("lit", rng.choice(["-", ":", " ", "/"])))
             pieces.append(("tok", tok))
             prev_tok = tok
@@ -172,13 +172,44 @@ ALPHA = list("HhmsSYMDZzAXxEQd") + ["[", "]", "!UTC", " ", "-", "[]", "[!UTC]", 
 def gen_adversarial(rng):
     n = rng.range(0, 9)
     s = "".join(rng.choice(ALPHA) for _ in range(n))
-    if rng.chance(20):
-        s += "!UTC"
-    if rng.chance(4):
+    if rng.chance(6):
         s = "YYYY-MM-DD HH:mm:ss.SSS Z"
+    if rng.chance(25):
+        s += "!UTC"
     if rng.chance(4):
         s += "%" + rng.choice("YmdHMSfzZj")
     return s
+
+
+DOC_TOKENS_LONGEST_FIRST = sorted(TOKENS, key=lambda t: -len(t))
+
+
+def recut(pieces):
+    """Independent reading of a spec given as pieces: runs of adjacent token pieces are re-cut by the rule of
+    the documentation - at every position the LONGEST documented token wins (a run of S longer than six is
+    rejected by the library and never generated)."""
+    out, run = [], ""
+    def flush():
+        nonlocal run
+        i = 0
+        while i < len(run):
+            for t in DOC_TOKENS_LONGEST_FIRST:
+                if run.startswith(t, i):
+                    out.append(("tok", t))
+                    i += len(t)
+                    break
+            else:
+                out.append(("lit", run[i]))
+                i += 1
+        run = ""
+    for k, t in pieces:
+        if k == "tok":
+            run += t
+        else:
+            flush()
+            out.append((k, t))
+    flush()
+    return out
 
 
 def impl_format(dt, spec):
@@ -268,6 +299,7 @@ def run(ctx):
         except OverflowError:
             ctx.stat("skipped_overflow")
             continue
+        pieces = recut(pieces)
         exp = "".join(oracle_token(t, d2) if k == "tok" else t for k, t in pieces)
         ntok = sum(1 for k, _ in pieces if k == "tok")
         ctx.case((spec, fields), nontrivial=(ntok >= 2 or utc or any(k == "esc" for k, _ in pieces)))
@@ -311,7 +343,7 @@ def run(ctx):
 
     # ---- grid: every token x 24 hours x offsets (thorough: full; quick: sampled)
     grid_offsets = OFFSETS_US if not ctx.quick else OFFSETS_US[::3]
-    for tok in TOKENS + ["YYYY-MM-DD HH:mm:ss.SSS Z", ""]:
+    for tok in TOKENS + ["YYYY-MM-DD HH:mm:ss.SSS Z", "YYYY-MM-DD HH:mm:ss.SSS Z!UTC", ""]:
         for h in (range(24) if not ctx.quick else (0, 1, 11, 12, 13, 23)):
             for off in grid_offsets:
                 fields = (rng.choice([1, 999, 1000, 2024, 9999]), rng.choice([1, 2, 12]), rng.range(1, 28), h,
@@ -330,8 +362,23 @@ def run(ctx):
                         ctx.violation("format(%r, %r): expected %r, observed %r" % (dt.isoformat(), tok, exp, got[1]),
                                       {"stream": "oracle", "spec": tok, "instant": list(fields), "expected": exp,
                                        "observed": got[1]}, key=key)
-                elif tok == "":
-                    exp = dt.isoformat().replace("+00:00", "+0000")
+                elif tok.startswith("YYYY-MM-DD HH:mm:ss.SSS Z"):
+                    try:
+                        d3 = dt.astimezone(pydt.timezone.utc) if tok.endswith("!UTC") else dt
+                    except OverflowError:
+                        continue
+                    exp = "%04d-%02d-%02d %02d:%02d:%02d.%03d %s" % (
+                        d3.year, d3.month, d3.day, d3.hour, d3.minute, d3.second, d3.microsecond // 1000,
+                        correct_tz(d3, ":"))
+                    if got != ("ok", exp):
+                        f1 = "%04d-%02d-%02d %02d:%02d:%02d.%03d %s" % (
+                            d3.year, d3.month, d3.day, d3.hour, d3.minute, d3.second, d3.microsecond // 1000,
+                            f1_tz(d3, ":"))
+                        key = "F1-negative-offset-with-seconds" if (got == ("ok", f1) and f1_applies(fields)
+                                                                    and not tok.endswith("!UTC")) else None
+                        ctx.violation("format(%r, %r): expected %r, observed %r" % (dt.isoformat(), tok, exp, got[1]),
+                                      {"stream": "oracle", "spec": tok, "instant": list(fields), "expected": exp,
+                                       "observed": got[1]}, key=key)
                 lines.append(line_of(tok, fields))
                 cases.append((tok, fields, got))
 
